@@ -1,4 +1,6 @@
-// NOT REGISTERED: > 420 s under Kani 0.68 with either solver (2026-09-23); see DESIGN.md 9.3
+// NOT REGISTERED: > 420 s under Kani 0.68 with either solver (2026-09-23); see DESIGN.md 9.2 / 9.3
+// measured: Zoned::new on constants alone > 200 s; replacing it by `unsafe { core::mem::zeroed::<jiff::Zoned>() }`
+// (tag 0 = STATIC_TZIF, no destructor; never read because Zoned::timestamp is stubbed) still > 330 s.
 /// `mktime` = `timestamp_to_epoch` o jiff o `array_to_datetime`: the decision "whole or fractional"
 /// is taken in `mktime` itself from `Timestamp::subsec_nanosecond`, which jiff documents as
 /// carrying the SIGN of the timestamp (negative before 1970).  From the property ("`gmtime |
